@@ -1,4 +1,5 @@
 import CifModel.Lemmas.StoreTotal
+import CifModel.Lemmas.StoreRows
 import CifModel.Lemmas.StoreWorld
 /-
   Lemmas/StoreTotalS — the invariant `Inv` together with PacketsTotal (`Good`), carried through transactions, savepoints and the
@@ -8,39 +9,74 @@ import CifModel.Lemmas.StoreWorld
 namespace CifModel.Store
 open Gen.ErrCodes World
 
+/-- the iterator's `scalar` flag (the handle's cached category at cif_loop_get_packets) tells the truth about the stored loop -/
+def Iter.ScalarOk (it : Iter) (d : Db) : Prop :=
+  ∀ x ∈ d.loops, x.cid = it.cid → x.loopNum = it.loopNum → (x.category = some [] ↔ it.scalar = true)
+
 structure Good (d : Db) : Prop where
   inv : Inv d
   total : PacketsTotal d
+  rows : Rows d
 
-theorem Good.empty : Good {} := ⟨Inv.empty, PacketsTotal.empty⟩
-theorem Good.insertContainer {d : Db} (h : Good d) : Good d.insertContainer.1 := ⟨h.inv.insertContainer, h.total.insertContainer⟩
-theorem Good.insertBlock {d d' : Db} (h : Good d) (cid : Nat) (k o : Str) (he : d.insertBlock cid k o = some d') : Good d' :=
-  ⟨h.inv.insertBlock cid k o he, h.total.insertBlock cid k o he⟩
-theorem Good.insertFrame {d d' : Db} (h : Good d) (cid par : Nat) (k o : Str) (hord : par < cid) (he : d.insertFrame cid par k o = some d') : Good d' :=
-  ⟨h.inv.insertFrame cid par k o hord he, h.total.insertFrame cid par k o he⟩
+theorem Good.empty : Good {} := ⟨Inv.empty, PacketsTotal.empty, Rows.empty⟩
+theorem Good.insertContainer {d : Db} (h : Good d) : Good d.insertContainer.1 :=
+  ⟨h.inv.insertContainer, h.total.insertContainer, h.rows.congr rfl rfl rfl⟩
+theorem Good.insertBlock {d d' : Db} (h : Good d) (cid : Nat) (k o : Str) (he : d.insertBlock cid k o = some d') : Good d' := by
+  refine ⟨h.inv.insertBlock cid k o he, h.total.insertBlock cid k o he, ?_⟩
+  unfold Db.insertBlock at he
+  split at he; · cases he
+  split at he; · cases he
+  split at he; · cases he
+  cases he; exact h.rows.congr rfl rfl rfl
+theorem Good.insertFrame {d d' : Db} (h : Good d) (cid par : Nat) (k o : Str) (hord : par < cid) (he : d.insertFrame cid par k o = some d') : Good d' := by
+  refine ⟨h.inv.insertFrame cid par k o hord he, h.total.insertFrame cid par k o he, ?_⟩
+  unfold Db.insertFrame at he
+  split at he; · cases he
+  split at he; · cases he
+  split at he; · cases he
+  split at he; · cases he
+  split at he; · cases he
+  cases he; exact h.rows.congr rfl rfl rfl
 theorem Good.deleteContainer {d : Db} (h : Good d) (id : Nat) : Good (d.deleteContainer id).1 :=
-  ⟨h.inv.deleteContainer id, h.total.deleteContainer h.inv id⟩
-theorem Good.removeItem {d : Db} (h : Good d) (cid : Nat) (k : Str) : Good (d.removeItem cid k) := ⟨h.inv.removeItem cid k, h.total.removeItem h.inv cid k⟩
-theorem Good.destroyLoop {d : Db} (h : Good d) (cid ln : Nat) : Good (d.destroyLoop cid ln).1 := ⟨h.inv.destroyLoop cid ln, h.total.destroyLoop h.inv cid ln⟩
-theorem Good.prune {d : Db} (h : Good d) (cid : Nat) : Good (d.prune cid) := ⟨h.inv.prune cid, h.total.prune h.inv cid⟩
-theorem Good.removePacket {d : Db} (h : Good d) (cid ln row : Nat) : Good (d.removePacket cid ln row) :=
-  ⟨h.inv.removePacket cid ln row, h.total.removePacket h.inv cid ln row⟩
-theorem Good.resetRowNum {d : Db} (h : Good d) (cid ln : Nat) : Good (d.resetRowNum cid ln) := ⟨h.inv.resetRowNum cid ln, h.total.resetRowNum cid ln⟩
+  ⟨h.inv.deleteContainer id, h.total.deleteContainer h.inv id, h.rows.deleteContainer h.inv id⟩
+/-- REMOVE_ITEM_SQL when the item's loop has another item (cif_container_remove_item destroys the loop otherwise) -/
+theorem Good.removeItem {d : Db} (h : Good d) (cid : Nat) (k : Str)
+    (hother : ∀ i ∈ d.items, i.cid = cid → i.name = k → ∃ j0 ∈ d.loopItems i.cid i.loopNum, j0.name ≠ k) : Good (d.removeItem cid k) :=
+  ⟨h.inv.removeItem cid k, h.total.removeItem h.inv cid k, h.rows.removeItem h.inv h.total cid k hother⟩
+theorem Good.destroyLoop {d : Db} (h : Good d) (cid ln : Nat) : Good (d.destroyLoop cid ln).1 :=
+  ⟨h.inv.destroyLoop cid ln, h.total.destroyLoop h.inv cid ln, h.rows.destroyLoop h.inv cid ln⟩
+theorem Good.prune {d : Db} (h : Good d) (cid : Nat) : Good (d.prune cid) := ⟨h.inv.prune cid, h.total.prune h.inv cid, h.rows.prune h.inv cid⟩
+/-- the two database effects of cif_pktitr_remove_packet, for an iterator that stands on a row of its loop and whose `scalar` flag
+    is true to the store -/
+theorem Good.removePacketIt {d : Db} (h : Good d) (it : Iter) (hat : it.Attached d) (hsc : it.ScalarOk d) :
+    Good (if it.scalar then (d.removePacket it.cid it.loopNum it.prev.toNat).resetRowNum it.cid it.loopNum
+          else d.removePacket it.cid it.loopNum it.prev.toNat) := by
+  split
+  · rename_i hs
+    exact ⟨(h.inv.removePacket _ _ _).resetRowNum _ _, (h.total.removePacket h.inv _ _ _).resetRowNum _ _,
+      h.rows.removePacketReset h.inv _ _ _ (fun x hx e1 e2 => (hsc x hx e1 e2).mpr hs) hat.1⟩
+  · rename_i hs
+    exact ⟨h.inv.removePacket _ _ _, h.total.removePacket h.inv _ _ _,
+      h.rows.removePacket h.inv _ _ _ (fun x hx e1 e2 hc => hs ((hsc x hx e1 e2).mp hc))⟩
 theorem Good.setAllValues {d : Db} (h : Good d) (cid : Nat) (k : Str) (v : V) : Good (d.setAllValues cid k v).1 :=
-  ⟨h.inv.setAllValues cid k v, h.total.setAllValues h.inv cid k v⟩
-theorem Good.setCategory {d d' : Db} (h : Good d) (cid ln : Nat) (cat : Option Str) (n : Nat)
-    (he : d.setCategory cid ln cat = .ok (d', n)) : Good d' := ⟨h.inv.setCategory cid ln cat n he, h.total.setCategory cid ln cat n he⟩
+  ⟨h.inv.setAllValues cid k v, h.total.setAllValues h.inv cid k v, h.rows.setAllValues h.inv.itemPK cid k v⟩
+theorem Good.setCategory {d d' : Db} (h : Good d) (cid ln : Nat) (cat : Option Str) (n : Nat) (hcat : cat ≠ some [])
+    (he : d.setCategory cid ln cat = .ok (d', n)) : Good d' :=
+  ⟨h.inv.setCategory cid ln cat n he, h.total.setCategory cid ln cat n he, h.rows.setCategory cid ln cat n hcat he⟩
 
 theorem createLoopBody_good (cid : Nat) (cat : Option Str) (names : List Name) (d d' : Db) (l : LH) (h : Good d)
     (he : createLoopBody cid cat names d = .ok (d', l)) : Good d' :=
-  ⟨createLoopBody_inv cid cat names d d' l h.inv he, createLoopBody_total cid cat names d d' l h.total h.inv he⟩
+  ⟨createLoopBody_inv cid cat names d d' l h.inv he, createLoopBody_total cid cat names d d' l h.total h.inv he,
+   createLoopBody_rows cid cat names d d' l h.rows h.inv he⟩
 theorem addItemBody_good (l : LH) (k o : Str) (v : V) (d d' : Db) (n : Nat) (h : Good d) (he : addItemBody l k o v d = .ok (d', n)) : Good d' :=
-  ⟨addItemBody_inv l k o v d d' n h.inv he, addItemBody_total l k o v d d' n h.total h.inv he⟩
-theorem addPacketBody_good (l : LH) (p : List (Str × V)) (d d' : Db) (u : Unit) (h : Good d) (he : addPacketBody l p d = .ok (d', u)) : Good d' :=
-  ⟨addPacketBody_inv l p d d' u h.inv he, addPacketBody_total l p d d' u h.total h.inv he⟩
+  ⟨addItemBody_inv l k o v d d' n h.inv he, addItemBody_total l k o v d d' n h.total h.inv he, addItemBody_rows l k o v d d' n h.rows h.inv he⟩
+theorem addPacketBody_good (l : LH) (p : List (Str × V)) (d d' : Db) (u : Unit) (h : Good d) (hne : p ≠ [])
+    (he : addPacketBody l p d = .ok (d', u)) : Good d' :=
+  ⟨addPacketBody_inv l p d d' u h.inv he, addPacketBody_total l p d d' u h.total h.inv he, addPacketBody_rows l p d d' u h.rows h.inv hne he⟩
 theorem updateValues_good (p : List (Str × V)) (d d' : Db) (it : Iter) (h : Good d) (hat : it.Attached d)
     (he : updateValues d it p = .ok d') : Good d' :=
-  ⟨updateValues_inv p d d' it h.inv he, updateValues_total p d d' it h.total h.inv hat he⟩
+  ⟨updateValues_inv p d d' it h.inv he, updateValues_total p d d' it h.total h.inv hat he,
+   updateValues_rows p d d' it h.rows h.total h.inv hat he⟩
 
 -- ---- the tower of Lemmas/StoreInv, over `Good` -------------------------------------------------------------------------------------
 
@@ -158,7 +194,9 @@ theorem addItem_goodS {s : Store} (h : GoodS s) (l : LH) (n : Option Name) (v : 
 theorem addPacket_goodS {s : Store} (h : GoodS s) (l : LH) (p : List (Str × V)) : GoodS (addPacket s l p).1 := by
   unfold addPacket
   split; · exact h
-  exact h.nest _ (fun d d' a hi he => addPacketBody_good _ _ d d' a hi he)
+  rename_i hne
+  have hne' : p ≠ [] := by intro e; subst e; simp at hne
+  exact h.nest _ (fun d d' a hi he => addPacketBody_good _ _ d d' a hi hne' he)
 
 theorem createBlock_goodS {s : Store} (h : GoodS s) (n : Option Name) (len : Bool) : GoodS (createBlock s n len).1 := by
   unfold createBlock
@@ -209,11 +247,13 @@ theorem removeItem_goodS {s : Store} (h : GoodS s) (hd : CH) (n : Option Name) :
   have h1 := h.begin hb
   split
   · exact h1.rollbackD s1 h1
-  · simp only []
+  · rename_i ln size hsz
+    simp only []
     refine (h1.setDb ?_).commitD s1 h1
     split
     · exact h1.db.destroyLoop _ _
-    · exact h1.db.removeItem _ _
+    · rename_i hs1
+      exact h1.db.removeItem _ _ (loopSize_other s1.db h1.db.inv _ _ ln size hsz (by simpa using hs1))
 
 theorem allLoops_goodS {s : Store} (h : GoodS s) (hd : CH) : GoodS (allLoops s hd).1 := h.nestRO _
 theorem getNames_goodS {s : Store} (h : GoodS s) (l : LH) : GoodS (getNames s l).1 := h.nestRO _
@@ -233,7 +273,7 @@ theorem getPackets_goodS {s : Store} (h : GoodS s) (l : LH) : GoodS (getPackets 
       · exact h2.rollbackD s2 h2
       · exact h2
 
-theorem updatePacket_goodS {s : Store} (h : GoodS s) (it : Iter) (p : List (Str × V)) (hat : it.Attached s.db) : GoodS (updatePacket s it p).1 := by
+theorem updatePacket_goodS {s : Store} (h : GoodS s) (it : Iter) (p : List (Str × V)) (hat : 0 < it.prev → it.Attached s.db) : GoodS (updatePacket s it p).1 := by
   unfold updatePacket
   split; · exact h
   rename_i ha
@@ -242,20 +282,17 @@ theorem updatePacket_goodS {s : Store} (h : GoodS s) (it : Iter) (p : List (Str 
   simp only []
   split
   · rename_i d2 hu
-    exact (hsv.setDb (updateValues_good p _ d2 it hsv.db hat hu)).releaseD
+    exact (hsv.setDb (updateValues_good p _ d2 it hsv.db (hat (by omega)) hu)).releaseD
   · exact hsv.rollbackToD
 
-theorem removePacket_goodS {s : Store} (h : GoodS s) (it : Iter) : GoodS (removePacket s it).1 := by
+theorem removePacket_goodS {s : Store} (h : GoodS s) (it : Iter) (hat : 0 < it.prev → it.Attached s.db) (hsc : it.ScalarOk s.db) : GoodS (removePacket s it).1 := by
   unfold removePacket
   split; · exact h
   rename_i ha
   have hsv := h.save (by simpa using ha)
   split; · exact h
   simp only []
-  refine (hsv.setDb ?_).releaseD
-  split
-  · exact (hsv.db.removePacket _ _ _).resetRowNum _ _
-  · exact hsv.db.removePacket _ _ _
+  exact (hsv.setDb (hsv.db.removePacketIt it (hat (by omega)) hsc)).releaseD
 
 theorem closeIter_goodS {s : Store} (h : GoodS s) : GoodS (closeIter s).1 := by
   unfold closeIter
@@ -329,13 +366,17 @@ theorem setValue_goodS {s : Store} (h : GoodS s) (hd : CH) (n : Option Name) (v 
 theorem setCategory_goodS {s : Store} (h : GoodS s) (l : LH) (cat : Option Str) : GoodS (setCategory s l cat).1 := by
   unfold setCategory
   split; · exact h
+  rename_i hres
   split
   · exact h
   · rename_i d1 n he
     simp only []
+    have hcat : cat ≠ some [] := by
+      intro e; subst e
+      exact hres (by simp [catReserved])
     split
-    · exact h.setDb (h.db.setCategory _ _ _ _ he)
-    · split <;> exact h.setDb (h.db.setCategory _ _ _ _ he)
+    · exact h.setDb (h.db.setCategory _ _ _ _ hcat he)
+    · split <;> exact h.setDb (h.db.setCategory _ _ _ _ hcat he)
 
 
 -- ---- worlds ------------------------------------------------------------------------------------------------------------------------
